@@ -73,7 +73,7 @@ CHECKS = {
         rule=("Runtime level. Seeds = reference encodings of all depth<=1 shapes, their depth-2 wrappers [thorough: all depth<=2 "
               "shapes] and payload/length-boundary values, per wire protocol {binary, binary-LE, compact}. Faults enumerated "
               "completely per seed: every truncation length; every annotated length/count/field-id/type position overwritten with "
-              "each of {-1,0,1,rem-1,rem,rem+1,2^31-1,2^31-16,2^24,-2^31} for lengths and {-1,0,1,rem-1,rem,rem+1,2^22,2^24,2^16,-2^31} for element counts (own integer encoding; compact additionally over-long "
+              "each of {-1,0,1,rem-1,rem,rem+1,2^31-1,2^31-16,2^24,-2^31} for lengths and {-1,0,1,rem-1,rem,rem+1,2^22,2^20,2^16,-2^31} for element counts (own integer encoding; compact additionally over-long "
               "and unterminated varints) resp. 7 field ids resp. 18 type bytes; every single-bit flip (seeds <=12 bytes quick, all "
               "thorough); plus ALL byte strings of length<=2 and all strings of length 3..4 [5] over a 12-byte alphabet, each read "
               "as struct/list/map/binary/set/i32; nesting 65, 66, 100, 5000 and 200 000 deep through struct fields, list / set elements, "
